@@ -218,4 +218,170 @@ theorem ops_length_pos {jobs : Jobs} {j k : Nat} (h : k < (jobs.ops j).length) :
   · exact hj
   · simp [Jobs.ops, List.getD, List.getElem?_eq_none (Nat.le_of_not_lt hj)] at h
 
+/-! ### choosers: `_dispatch` under a rule, `_rebuild_schedule` under its priorities -/
+
+/-- A chooser picks a job that still has operations whenever there is one (and only then). -/
+structure Chooser (jobs : Jobs) (ch : DState → Option Nat) : Prop where
+  ready : ∀ s j, ch s = some j → j < jobs.length ∧ s.next j < (jobs.ops j).length
+  none : ∀ s, ch s = none → ∀ j, j < jobs.length → ¬ s.next j < (jobs.ops j).length
+
+/-- Operations still to place. -/
+def remOps (jobs : Jobs) (s : DState) : Nat :=
+  ((List.range jobs.length).map fun j => (jobs.ops j).length - s.next j).sum
+
+theorem sum_range_update (n : Nat) (f g : Nat → Nat) (j : Nat) (hj : j < n)
+    (hne : ∀ i, i ≠ j → g i = f i) (hj' : g j + 1 = f j) :
+    ((List.range n).map g).sum + 1 = ((List.range n).map f).sum := by
+  induction n with
+  | zero => omega
+  | succ n ih =>
+    simp only [List.range_succ, List.map_append, List.map_cons, List.map_nil, List.sum_append,
+      List.sum_cons, List.sum_nil, Nat.add_zero]
+    by_cases hjn : j = n
+    · subst hjn
+      have : (List.range j).map g = (List.range j).map f := by
+        apply List.map_congr_left
+        intro i hi
+        exact hne i (by have := List.mem_range.1 hi; omega)
+      rw [this]; omega
+    · have := ih (by omega)
+      have hn := hne n (fun h => hjn h.symm)
+      omega
+
+theorem sum_range_zero (n : Nat) (f : Nat → Nat) (h : ((List.range n).map f).sum = 0) :
+    ∀ i, i < n → f i = 0 := by
+  induction n with
+  | zero => intro i hi; omega
+  | succ n ih =>
+    simp only [List.range_succ, List.map_append, List.map_cons, List.map_nil, List.sum_append,
+      List.sum_cons, List.sum_nil, Nat.add_zero] at h
+    intro i hi
+    by_cases hin : i = n
+    · subst hin; omega
+    · exact ih (by omega) i (by omega)
+
+theorem sum_range_getD {α} (l : List α) (d : α) (f : α → Nat) :
+    ((List.range l.length).map fun i => f (l.getD i d)).sum = (l.map f).sum := by
+  induction l with
+  | nil => rfl
+  | cons x xs ih =>
+    simp only [List.length_cons, List.range_succ_eq_map, List.map_cons, List.map_map, List.sum_cons]
+    rw [← ih]
+    rfl
+
+theorem remOps_init (jobs : Jobs) : remOps jobs DState.init = totalOps jobs := by
+  unfold remOps totalOps Jobs.ops
+  simp only [DState.init, Nat.sub_zero]
+  exact sum_range_getD jobs [] List.length
+
+theorem remOps_place (jobs : Jobs) (s : DState) (j : Nat) (hj : j < jobs.length)
+    (hr : s.next j < (jobs.ops j).length) : remOps jobs (place jobs s j) + 1 = remOps jobs s := by
+  unfold remOps
+  apply sum_range_update _ _ _ j hj
+  · intro i hi; simp [place, upd, hi]
+  · simp only [place, upd, if_true]; omega
+
+theorem dispatchWith_spec (jobs : Jobs) (ch : DState → Option Nat) (hch : Chooser jobs ch) (fuel : Nat)
+    (s : DState) (hb : ∀ j, s.next j ≤ (jobs.ops j).length) :
+    ∃ cs, dispatchWith jobs ch fuel s = runChoices jobs cs s ∧ (∀ j ∈ cs, j < jobs.length) ∧
+      (remOps jobs s ≤ fuel →
+        ∀ j, j < jobs.length → (runChoices jobs cs s).next j = (jobs.ops j).length) := by
+  induction fuel generalizing s with
+  | zero =>
+    refine ⟨[], rfl, by simp, ?_⟩
+    intro hle j hj
+    have := sum_range_zero _ _ (Nat.le_zero.1 hle) j hj
+    have := hb j
+    simp only [runChoices, List.foldl_nil]
+    omega
+  | succ fuel ih =>
+    unfold dispatchWith
+    cases hc : ch s with
+    | none =>
+      refine ⟨[], rfl, by simp, ?_⟩
+      intro _ j hj
+      have := hch.none s hc j hj
+      have := hb j
+      simp only [runChoices, List.foldl_nil]
+      omega
+    | some j =>
+      obtain ⟨hj, hr⟩ := hch.ready s j hc
+      have hb' : ∀ j', (place jobs s j).next j' ≤ (jobs.ops j').length := by
+        intro j'
+        simp only [place, upd]
+        split
+        · subst_vars; omega
+        · exact hb j'
+      obtain ⟨cs, h1, h2, h3⟩ := ih (place jobs s j) hb'
+      refine ⟨j :: cs, ?_, ?_, ?_⟩
+      · simpa [runChoices] using h1
+      · intro x hx
+        rcases List.mem_cons.1 hx with rfl | hx
+        · exact hj
+        · exact h2 x hx
+      · intro hle
+        have := remOps_place jobs s j hj hr
+        simpa [runChoices] using h3 (by omega)
+
+theorem chooser_choices (jobs : Jobs) (ch : DState → Option Nat) (hch : Chooser jobs ch) :
+    ∃ cs, Choices jobs cs ∧
+      (dispatchWith jobs ch (totalOps jobs) DState.init).sched = dispatch jobs cs := by
+  obtain ⟨cs, h1, h2, h3⟩ := dispatchWith_spec jobs ch hch (totalOps jobs) DState.init
+    (by intro j; simp [DState.init])
+  refine ⟨cs, ⟨h2, ?_⟩, by rw [h1]; rfl⟩
+  intro j hj
+  have := h3 (by rw [remOps_init]; exact Nat.le_refl _) j hj
+  rw [next_run] at this
+  simpa [DState.init] using this
+
+/-! the four rules are choosers -/
+
+theorem foldl_pick_mem (better : Nat → Nat → Bool) (js : List Nat) (j : Nat) :
+    js.foldl (fun b x => if better x b then x else b) j ∈ j :: js := by
+  induction js generalizing j with
+  | nil => simp
+  | cons x xs ih =>
+    simp only [List.foldl_cons]
+    have := ih (if better x j then x else j)
+    rcases List.mem_cons.1 this with h | h
+    · rw [h]; split <;> simp
+    · exact List.mem_cons_of_mem _ (List.mem_cons_of_mem _ h)
+
+theorem firstBest_some {better : Nat → Nat → Bool} {l : List Nat} {j : Nat}
+    (h : firstBest better l = some j) : j ∈ l := by
+  cases l with
+  | nil => simp [firstBest] at h
+  | cons x xs =>
+    simp only [firstBest, Option.some.injEq] at h
+    rw [← h]; exact foldl_pick_mem better xs x
+
+theorem firstBest_none {better : Nat → Nat → Bool} {l : List Nat} (h : firstBest better l = none) : l = [] := by
+  cases l with
+  | nil => rfl
+  | cons x xs => simp [firstBest] at h
+
+theorem mem_readyJobs {jobs : Jobs} {s : DState} {j : Nat} :
+    j ∈ readyJobs jobs s ↔ j < jobs.length ∧ s.next j < (jobs.ops j).length := by
+  simp [readyJobs, isReady]
+
+theorem choose_chooser (r : Rule) (jobs : Jobs) : Chooser jobs (choose r jobs) := by
+  constructor
+  · intro s j h
+    apply mem_readyJobs.1
+    cases r <;> simp only [choose] at h
+    · exact List.mem_of_mem_head? h
+    · exact firstBest_some h
+    · exact firstBest_some h
+    · exact firstBest_some h
+  · intro s h j hj hr
+    have hm : j ∈ readyJobs jobs s := mem_readyJobs.2 ⟨hj, hr⟩
+    have : readyJobs jobs s = [] := by
+      cases r <;> simp only [choose] at h
+      · exact List.head?_eq_none_iff.1 h
+      · exact firstBest_none h
+      · exact firstBest_none h
+      · exact firstBest_none h
+    rw [this] at hm
+    cases hm
+
 end Solvor.Sched
